@@ -96,6 +96,8 @@ def main(argv):
             rng = util.case_rng(prop, seed, 0, index)
             casedir = ctx.tmp()
             t_case = time.monotonic()
+            from vf import cli as _cli0
+            _cli0.begin_case(prop, seed, index)
             try:
                 res = P.run_case(ctx, rng, index, casedir)
             except monitor.ContractBroken:
